@@ -19,7 +19,7 @@ for k in sorted(os.listdir(src)):
     for f in ('patch.diff', 'demo.py'):
         shutil.copy(os.path.join(d, f), dst)
     meta = json.load(open(os.path.join(d, 'meta.json')))
-    meta['round'] = 2 if offset else 1
+    meta['round'] = 1 + offset // 3
     meta['confirmed_by_coordinator'] = {'cmd': 'tools/verify_seed.sh (fresh worktree: demo on clean tree, git apply, full suite, demo on changed tree)',
                                         'result': line[0] if line else '', 'base_tree': base}
     json.dump(meta, open(os.path.join(dst, 'meta.json'), 'w'), indent=1)
